@@ -35,7 +35,7 @@ def _matrix(ctx, prog, names):
         ctx.require(fs, 'no definition of %s' % name)
         for f in fs:
             d = arm_descriptors(prog, f)
-            ctx.require(len(d) >= 11, '%s: kind switch with %d arms' % (inst(f), len(d)))
+            ctx.require(len(d) >= 8, '%s: kind switch with %d arms' % (inst(f), len(d)))
             out[f.key] = (f, d)
     return out
 
@@ -80,6 +80,8 @@ def k3(ctx):
         for key, (f, d) in sorted(mats.items(), key=lambda kv: str(kv[0])):
             if short(f) != ref_name:
                 continue
+            if kind not in d:
+                continue        # K1 reports the missing arm
             ref = d[kind]
             ref_variant = f
             for key2, (g, d2) in sorted(mats.items(), key=lambda kv: str(kv[0])):
@@ -94,6 +96,8 @@ def k3(ctx):
                         g.targ('DictShouldBeSorted') != f.targ('DictShouldBeSorted'):
                     continue
                 if g.targ('DictShouldBeSorted') is None and f.targ('DictShouldBeSorted') not in ('-1', '1'):
+                    continue
+                if kind not in d2:
                     continue
                 other = d2[kind]
                 site = '%s~%s/%s' % (ref_name.split('::')[-1], short(g).split('::')[-1], kind)
@@ -115,6 +119,12 @@ def k3(ctx):
                     kb = _keys_norm(other.key_pipeline, False)
                     if ka != kb:
                         diffs.append('key pipeline %s vs %s' % (ref.key_pipeline, other.key_pipeline))
+                    if g.targ('DictShouldBeSorted') is None:
+                        for e in other.all('sort'):
+                            if not any(re.search(r'insertion_ordered|IsDictInsertionOrdered', x)
+                                       for x in e[2]):
+                                diffs.append('the key sort is not guarded by the dict-order mode '
+                                             '(guards: %s)' % (e[2],))
                     aa, ab = ref.arity, other.arity
                     if aa and ab and _arity_class(aa) != _arity_class(ab):
                         diffs.append('arity from %s vs %s' % (aa, ab))
@@ -172,8 +182,13 @@ def _effective_dir(desc):
     if loop is None:
         return None
     d, over = loop
+    pushed_reversed = bool(desc.all('reverse-pushed'))
     if d == 'ITER' and over and (over.startswith('KEYS(') or over.startswith('SPEC.node_data')):
-        return 'KEYS_REV' if 'REVERSE' in desc.key_pipeline else 'KEYS'
+        rev = ('REVERSE' in desc.key_pipeline) != pushed_reversed
+        return 'KEYS_REV' if rev else 'KEYS'
+    if pushed_reversed:
+        # children pushed in forward order, then the pushed segment is reversed
+        return {'ASC': 'DESC', 'ITER': 'DESC', 'DESC': 'ASC'}.get(d, d)
     return d
 
 
@@ -185,6 +200,8 @@ def k4(ctx):
     for key, (f, d) in sorted(mats.items(), key=lambda kv: str(kv[0])):
         disc = _discipline(prog, f)
         for kind in CONTAINER_KINDS:
+            if kind not in d:
+                continue
             eff = _effective_dir(d[kind])
             site = '%s/%s' % (short(f), kind)
             ctx.check(site, eff in EXPECTED_DIR[disc],
@@ -246,7 +263,8 @@ def k7(ctx):
         vals = desc.validations
         len_ok = any(re.search(r'len\(OUT\) != 2\).*len\(OUT\) != 3\)', v[0]) and v[1] == 'runtime_error'
                      for v in vals)
-        reads_entries = any('OUT2' in str(e) for e in desc.events)
+        reads_entries = any('OUT2' in str(e[1:-1]) for e in desc.events) or \
+            any('OUT2' in str(v) for v in desc.w.alias.values())
         ent_ok = True
         if reads_entries:
             ent_ok = any(v[1] == 'runtime_error' and re.search(r'(!=|>=) (arity|len\(OUT0\))', v[0])
@@ -289,6 +307,8 @@ def m1(ctx):
     mats = _matrix(ctx, prog, WRITERS)
     for key, (f, d) in sorted(mats.items(), key=lambda kv: str(kv[0])):
         for kind in CONTAINER_KINDS:
+            if kind not in d:
+                continue
             desc = d[kind]
             site = '%s/%s' % (short(f), kind)
             want = META_SHAPE[kind]
@@ -500,13 +520,22 @@ def _order_unaware_paths(prog, f, root, depth=0, chain=()):
     for c in calls_in(root):
         t = callee_func(prog, f, c)
         nm = c.callee_name()
-        if t is None and nm in ORDER_UNAWARE:
+        if t is None and (nm in ORDER_UNAWARE or _is_pydict_iteration(c)):
             if not _cut_off_for_ordereddict(f, c):
                 out.append((chain, c))
         elif t is not None and t.body is not None and depth < 3 and not t.is_lambda and \
-                nm in ('DictKeys', 'SortedDictKeys', 'DictValues', 'DictItems'):
+                t.key != f.key and c.call_args():
             out += _order_unaware_paths(prog, t, t.body, depth + 1, chain + (short(t),))
     return out
+
+
+def _is_pydict_iteration(c):
+    """`for (item : dict)` / dict.begin() on a py::dict: pybind11's dict iterator is PyDict_Next"""
+    if c.kind == 'CXXMemberCallExpr' and c.callee_name() == 'begin':
+        b = c.call_base()
+        t = ((b.type or '') if b is not None else '').replace('pybind11::', 'py::').replace('const ', '')
+        return t.strip(' &') == 'py::dict'
+    return False
 
 
 def _type_test(cn):
@@ -543,14 +572,18 @@ def _cut_off_for_ordereddict(f, call):
                     return True
         return False
     reach = cfg.reachable_from([cfg.entry.idx], skip)
-    return cn not in reach
+    if cn not in reach:
+        return True
+    from .traversal import kind_facts
+    kf = kind_facts(f, call)
+    return ('OrderedDict', False) in kf or any(eq and en in ('Dict', 'DefaultDict') for en, eq in kf)
 
 
 @rule('M7', floor=4, title='OrderedDict children are enumerated in the OrderedDict\'s own order')
 def m7(ctx):
     prog = ctx.cxx()
     n = 0
-    for name in FORWARD:
+    for name in FORWARD + SPEC_DRIVEN:
         for f in _insts(prog, name):
             sws = kind_switches(f)
             arms, _ = switch_arms(sws[0])
